@@ -8,6 +8,7 @@ import Mfi.Model.Bank
 import Mfi.Lemmas.FxL
 import Mfi.Lemmas.ResL
 import Mfi.Props.C18
+import Mfi.Lemmas.SkelL
 
 namespace Mfi.Props.C06
 open Mfi Mfi.Fx Mfi.Bank Mfi.Interest Mfi.Gen
@@ -194,5 +195,27 @@ theorem accrue_empty_side {b : Bank} {ir : IrCalc} {now ta tl : Int} (hnow : b.l
   have h1 : ¬ (now - b.lastUpdate < 0 ∨ now - b.lastUpdate > 9223372036854775807) := by omega
   have h2 : ¬ (now - b.lastUpdate = 0) := by omega
   simp only [h1, h2, ↓reduceIte, hta, htl, bind, Except.bind, h]
+
+
+/-! ### "always applied first": theorems over the handler skeletons regenerated from the source -/
+open Mfi.Gen.Skel in
+/-- **accrue_first**: in the handlers of deposit, withdraw, borrow, repay, close-balance and
+    bankruptcy settlement the bank's `accrue_interest` call occurs, and occurs before the first
+    share-moving call (wrapper operation, loss socialisation, capacity query). -/
+theorem accrue_first :
+    ∀ h ∈ [deposit, withdraw, borrow, repay, close_balance, handle_bankruptcy],
+      occursBefore h (isAccrue .bank) isShareMove = true := by decide
+
+open Mfi.Gen.Skel in
+/-- liquidation accrues BOTH banks before touching any position -/
+theorem accrue_first_liquidate :
+    occursBefore liquidate (isAccrue .assetBank) isShareMove = true ∧
+    occursBefore liquidate (isAccrue .liabBank) isShareMove = true := by decide
+
+open Mfi.Gen.Skel in
+/-- Known nuance kept visible: in `handle_bankruptcy` the eligibility test (`check_account_bankrupt`)
+    runs on stored share values BEFORE the accrual; the debt written off is computed after it. -/
+theorem bankruptcy_eligibility_before_accrual :
+    occursBefore handle_bankruptcy (· == .checkBankrupt) (isAccrue .bank) = true := by decide
 
 end Mfi.Props.C06
